@@ -142,6 +142,34 @@ def run(ctx):
     ok = any(isinstance(c, ast.Call) and (dotted(c.func) or "").endswith("single_source_dijkstra_path_length") and kwarg(c, "weight") is not None
              for c in ast.walk(fd.node))
     ctx.ob(R5, f"{GS}::calc_distance_to_bus::dijkstra", ok, "delegates to nx.single_source_dijkstra_path_length(weight=weight)", fd.loc())
+    # parallel connections keep their own lengths only in a multigraph: the graph of the distance search must not be simple
+    gcalls = [c for c in ast.walk(fd.node) if isinstance(c, ast.Call) and (dotted(c.func) or "").endswith("create_nxgraph")]
+    simple = [c for c in gcalls if kwarg(c, "multi") is not None and not (isinstance(kwarg(c, "multi"), ast.Constant) and kwarg(c, "multi").value is True)]
+    ctx.ob(R5, f"{GS}::calc_distance_to_bus::multigraph", bool(gcalls) and not simple,
+           "the distance search runs on the multigraph (parallel branches keep their own weights)" if gcalls and not simple else
+           "calc_distance_to_bus builds a simple graph: of parallel connections between two buses only the one added last survives, and "
+           "the reported distance is not the shortest", fd.loc(simple[0]) if simple else fd.loc())
+    # every edge block obeys its own include_* option
+    R6 = "INCLUDE-OPTION"
+    ctx.rule(R6, "each edge-producing block of create_nxgraph takes its table from get_edge_table(net, '<T>', include_<T>s): the "
+                 "option of its own element type decides (table agreement of blocks and options)")
+    fg = ctx.repo.func(f"{CG}:create_nxgraph")
+    want = {"line": "include_lines", "impedance": "include_impedances", "tcsc": "include_tcsc", "dcline": "include_dclines",
+            "trafo": "include_trafos", "trafo3w": "include_trafo3ws"}
+    seen = {}
+    for c in ast.walk(fg.node):
+        if isinstance(c, ast.Call) and (dotted(c.func) or "") == "get_edge_table" and len(c.args) >= 3 and isinstance(c.args[1], ast.Constant):
+            seen[c.args[1].value] = (ast.unparse(c.args[2]), c)
+    for t, opt in want.items():
+        got = seen.get(t)
+        ctx.ob(R6, f"{CG}::create_nxgraph::{t}", got is not None and got[0] == opt,
+               f"{t} edges are controlled by {opt}" if got is not None and got[0] == opt else
+               f"{t} edges are controlled by `{got[0] if got else None}` instead of {opt}: the option is ignored / another option switches them",
+               fg.loc(got[1]) if got else fg.loc())
+    params = {a.arg for a in fg.node.args.args}
+    for t, opt in want.items():
+        if opt not in params:
+            ctx.fail(f"create_nxgraph has no parameter {opt}")
 
 
 def variants(repo):
@@ -154,5 +182,7 @@ def variants(repo):
         V("open bus-bus switches are edges", p, in_function("create_nxgraph", replace_once('in_service = (switch.et.values == "b") & ~open_sw', 'in_service = (switch.et.values == "b")')), "switch:closed"),
         V("oos buses kept", p, in_function("create_nxgraph", replace_once("    if not include_out_of_service:\n        for b in net.bus.index[~net.bus.in_service.values]:", "    if include_out_of_service:\n        for b in net.bus.index[~net.bus.in_service.values]:")), "NODE-RULES"),
         V("out of service lines included", p, replace_once("np.ones(n, dtype=bool) if include_out_of_service else tab.in_service.values.copy()", "np.ones(n, dtype=bool)"), "in_service"),
+        V("distance on a simple graph", g, in_function("calc_distance_to_bus", replace_once("notravbuses=notravbuses)", "notravbuses=notravbuses, multi=False)")), "multigraph"),
+        V("tcsc block obeys the impedance option", p, replace_once('tcsc = get_edge_table(net, "tcsc", include_tcsc)', 'tcsc = get_edge_table(net, "tcsc", include_impedances)'), "INCLUDE-OPTION"),
         V("components not removed", g, in_function("connected_components", replace_once("        nodes -= cc\n", "        pass\n")), "PARTITION"),
     ]
